@@ -23,6 +23,13 @@ type decision struct {
 	Where  string
 }
 
+// PendingDecision is the serialisable form of a decision (work handed between processes).
+type PendingDecision struct {
+	C int    `json:"c"`
+	N int    `json:"n"`
+	A uint64 `json:"a,omitempty"`
+}
+
 // Outcome of a path.
 type Outcome struct {
 	Kind   string // "ok", "assume", "panic", "deadlock", "unsupported", "bound", "crash", "engine"
@@ -147,6 +154,9 @@ type Engine struct {
 	EntryName     string
 	maxCex        int
 	UnknownFeas   int
+	Budget        time.Duration // stop after this long and hand the unexplored prefixes back (Pending)
+	Pending       [][]PendingDecision
+	ResumeWork    [][]PendingDecision // start from these prefixes instead of the root
 	FreshRetries  int // undecided queries re-run in fresh one-shot solver processes
 	FreshDecided  int
 	UnknownNotes  []string // where/what of the first undecided obligations (diagnostics)
@@ -493,6 +503,33 @@ func (e *Engine) store(addr *Value, v Value) {
 	if addr == nil {
 		e.rtPanic("invalid memory address or nil pointer dereference")
 	}
+	// A struct or array is stored in place, element by element: pointers to its fields and
+	// elements (FieldAddr/IndexAddr results taken earlier) must keep denoting the stored object.
+	switch nv := v.(type) {
+	case Struct:
+		if ov, ok := (*addr).(Struct); ok && len(ov) == len(nv) {
+			for i := range nv {
+				e.store(&ov[i], nv[i])
+			}
+			return
+		}
+	case Array:
+		if ov, ok := (*addr).(Array); ok && len(ov) == len(nv) && len(nv) > 0 {
+			switch nv[0].(type) {
+			case Struct, Array:
+				for i := range nv {
+					e.store(&ov[i], nv[i])
+				}
+			default:
+				if !e.inInit {
+					saved := append([]Value(nil), ov...)
+					e.undo = append(e.undo, undoRec{f: func() { copy(ov, saved) }})
+				}
+				copy(ov, nv)
+			}
+			return
+		}
+	}
 	if !e.inInit {
 		e.undo = append(e.undo, undoRec{addr: addr, old: *addr})
 	}
@@ -597,7 +634,17 @@ func (e *Engine) Explore(entry *ssa.Function, cfg RunConfig) {
 		}
 	}()
 	e.work = [][]decision{nil}
-	if e.ShardN > 1 {
+	start := time.Now()
+	if e.ResumeWork != nil {
+		e.work = nil
+		for i := len(e.ResumeWork) - 1; i >= 0; i-- {
+			var pre []decision
+			for _, d := range e.ResumeWork[i] {
+				pre = append(pre, decision{Choice: d.C, N: d.N, Aux: d.A})
+			}
+			e.work = append(e.work, pre)
+		}
+	} else if e.ShardN > 1 {
 		// breadth-first expansion until the frontier is wide enough, then keep our share.
 		// (paths completed during the expansion are explored by every shard: counted once by shard 0)
 		for len(e.work) > 0 && len(e.work) < e.ShardN*48 && e.Paths < e.ShardN*400 {
@@ -638,6 +685,18 @@ func (e *Engine) Explore(entry *ssa.Function, cfg RunConfig) {
 		}
 		if !e.Deadline.IsZero() && time.Now().After(e.Deadline) {
 			e.Truncated = fmt.Sprintf("time limit reached with %d prefixes pending", len(e.work))
+			break
+		}
+		if e.Budget > 0 && time.Since(start) > e.Budget {
+			// hand the unexplored prefixes back, in the order this process would have explored them
+			for i := len(e.work) - 1; i >= 0; i-- {
+				pd := make([]PendingDecision, len(e.work[i]))
+				for j, d := range e.work[i] {
+					pd[j] = PendingDecision{C: d.Choice, N: d.N, A: d.Aux}
+				}
+				e.Pending = append(e.Pending, pd)
+			}
+			e.work = nil
 			break
 		}
 		prefix := e.work[len(e.work)-1]
